@@ -22,6 +22,9 @@ pub struct Case {
     pub from: [f64; 6],
     pub to: [f64; 6],
     pub cfgs: Vec<SimCfg>,
+    /// history: a second call on the same robot in the same execution with `from` and `to` swapped
+    #[serde(default)]
+    pub second_call: bool,
 }
 
 #[derive(Clone, Debug)]
@@ -35,7 +38,15 @@ pub struct Fail {
 fn execute(robot: &Arc<KinematicsWithShape>, case: &Case, cfg: &SimCfg) -> SimOut<Vec<[f64; 6]>> {
     let robot = robot.clone();
     let (i, f, t) = (case.initial, case.from, case.to);
-    sim::simulate(cfg, move || robot.non_colliding_offsets(&i, &f, &t))
+    let second = case.second_call;
+    sim::simulate(cfg, move || {
+        if second {
+            // the observed call is the SECOND one; the first (other argument order) only leaves
+            // behind whatever state the implementation keeps
+            let _ = robot.non_colliding_offsets(&i, &t, &f);
+        }
+        robot.non_colliding_offsets(&i, &f, &t)
+    })
 }
 
 #[derive(Clone, Debug)]
@@ -205,6 +216,11 @@ fn drop_env(case: &Case, k: usize) -> Case {
 
 fn simplifications(case: &Case) -> Vec<Case> {
     let mut out = Vec::new();
+    if case.second_call {
+        let mut c = case.clone();
+        c.second_call = false;
+        out.push(c);
+    }
     if case.cfgs.len() > 2 {
         for i in 0..case.cfgs.len() {
             let mut c = case.clone();
@@ -370,7 +386,8 @@ pub fn gen_case(seed: u64, shard: u64, run: u64, t: &Tier) -> Option<Case> {
         let sched_seed = simctx::mix(&[seed, shard, run, s as u64, simctx::name_hash("c14.sched")]);
         cfgs.push(SimCfg::swarm(&mut knobs, sched_seed, 0, 400_000));
     }
-    Some(Case { cell, initial, from, to, cfgs })
+    let second_call = knobs.chance(0.3);
+    Some(Case { cell, initial, from, to, cfgs, second_call })
 }
 
 pub fn run(tier_name: &str, seed: u64) -> i32 {
@@ -384,6 +401,9 @@ pub fn run(tier_name: &str, seed: u64) -> i32 {
                 continue;
             };
             let robot = Arc::new(case.cell.build_robot());
+            if case.second_call {
+                tally.bump("history_scenarios_observing_a_second_call", 1);
+            }
             let scen_hash = simctx::name_hash(&serde_json::to_string(&(&case.cell, &case.initial, &case.from, &case.to)).unwrap());
             let mut cstats: Vec<(String, u64)> = Vec::new();
             let mut sample: Option<Value> = None;
